@@ -12,12 +12,12 @@ type Profile struct {
 	Variants    []int
 	LeadUnits   [2]int // number of leading-track units
 	MaxAudio    int
-	Long        bool    // many rotations: tiny segments
-	Boundary    bool    // key-frame spacing placed around SegmentMinDuration
-	Durations   bool    // irregular durations, odd sample rates
-	ParamRate   int     // percent of random-access units that change parameters (0..100)
-	SmallMax    bool    // small SegmentMaxSize with payloads straddling it
-	ConstantLL  bool    // C19: constant sample duration, Low-Latency only
+	Long        bool // many rotations: tiny segments
+	Boundary    bool // key-frame spacing placed around SegmentMinDuration
+	Durations   bool // irregular durations, odd sample rates
+	ParamRate   int  // percent of random-access units that change parameters (0..100)
+	SmallMax    bool // small SegmentMaxSize with payloads straddling it
+	ConstantLL  bool // C19: constant sample duration, Low-Latency only
 	Codecs      []string
 	AllowDisk   bool
 	SegCountMax int
@@ -260,7 +260,8 @@ func DrawScript(t *rapid.T, p Profile) Script {
 						}
 						op.InBand = curSet + 1
 						pendingChange = true
-						if rapid.Bool().Draw(t, "paramOnly") {
+						// a write without any picture is only defined for H264 (the muxer ignores it there)
+						if spec.Codec == "h264" && rapid.Bool().Draw(t, "paramOnly") {
 							op.Kind = KindParamOnly
 						}
 					} else if spec.Codec == "h264" && rapid.IntRange(0, 40).Draw(t, "sei") == 0 {
